@@ -17,7 +17,12 @@ RULE = ('cases = (predictor-free query from the typed SQL model over tables livi
         'non-trivial = >= 2 fetches from different integrations and a non-empty ground truth or a non-empty join; '
         'dedicated shapes next to the model: LIMIT chains, outer-join chains, nested CTEs, star over a sub-select, selects '
         'from an api-type integration (catalog api-int2), sub-selects in GROUP BY / HAVING / ORDER BY / ON, IN (set '
-        'operation), correlated sub-selects over the other integration, CTE names (case, scope; catalog default-int1); '
+        'operation), correlated sub-selects over the other integration, CTE names (case, scope; catalog default-int1), '
+        'ORDER BY item forms (position / column / alias / expression / function x source x target forms x LIMIT: random '
+        'family and a bounded-exhaustive list, vf/gens/c08_shapes.py), a CTE joined under an alias / twice / without alias; '
+        'in JoinStep / QueryStep a column qualifier has to be the name of a frame of the joined result (fetch: alias or '
+        'table name, SubSelectStep: table_name), otherwise the step is reported as not executable and the rows are judged '
+        'under the lenient reading (frame found by the column name); '
         'before a plan is interpreted, steps that cannot be carried out whatever the data are reported '
         '(static_defects: a fetch that names a table or alias the integration does not have, a set operation over '
         'results, a column that the fetched select list does not return)')
@@ -29,8 +34,11 @@ ASSUMPTIONS = ['step semantics are read from the docstrings of planner/steps.py 
 FLOORS = {'quick': {'__nontrivial__': 500, 'multi-place': 3000, 'judged': 4000, 'plan:fetch:semijoin-filter': 500,
                     'plan:joinstep:FULL JOIN': 200, 'plan:joinstep:LEFT JOIN': 200, 'tag:limit': 300, 'tag:group': 300,
                     'tag:sub:in': 100, 'tag:setop:UNION': 50, 'catalog:api-int2': 150, 'tag:shape:clause-subselect': 60,
-                    'tag:shape:in-setop': 50, 'tag:shape:correlated': 30, 'tag:shape:cte-name': 30},
-          'thorough': {'__nontrivial__': 6000, 'multi-place': 20000, 'judged': 20000}}
+                    'tag:shape:in-setop': 50, 'tag:shape:correlated': 30, 'tag:shape:cte-name': 30,
+                    'tag:shape:order-item-exhaustive': 5000, 'tag:order-item:position': 900, 'plan:apifetch:order': 170,
+                    'tag:order-src:api-in': 12, 'tag:shape:cte-alias': 35},
+          'thorough': {'__nontrivial__': 6000, 'multi-place': 20000, 'judged': 20000,
+                       'tag:shape:order-item-exhaustive': 5000, 'tag:order-item:position': 900, 'tag:shape:cte-alias': 35}}
 N = {'quick': 900, 'thorough': 8000}
 PLACES = {'t1': 'int1', 't2': 'int1', 't3': 'int2', 't4': 'int2'}
 CFG = model.Cfg(places=PLACES, always_alias=True, correlated=False, cte=True, window=False, star=True,
@@ -543,6 +551,13 @@ def judge(case, col):
             return pre
     except planexec.InterpError as e:
         import os
+        if str(e).startswith('fetch failed on ') and 'no such column' in str(e):
+            # the query sent to an integration names a column that none of its tables in the query has
+            pf = sorted(set(plan_features(plan, orig)) | api_features(plan, cat))
+            out = [findings.record('step-not-executable', 'fetch-names-missing-column', sorted(set(tags) | set(pf)), cfg,
+                                   f'{e}; steps: {[type(s).__name__ for s in plan.steps]}', sql)]
+            col.case((cat, sql), False, classes + ['step-not-executable', 'defect:fetch-names-missing-column'])
+            return out
         if os.environ.get('VF_INTERP_AS_FAILURE'):
             return [findings.record('interp-error', str(e)[:30], tags, cfg, f'{e}; steps: {[type(s).__name__ for s in plan.steps]}', sql)]
         col.excluded('interpreter: ' + str(e)[:60])
@@ -1039,4 +1054,15 @@ def cases(draw):
 
 
 def run_shard(col, k, nshards, tier, seed):
+    n = 0
+    for i, c in enumerate(c08_shapes.order_item_space()):
+        n += 1
+        if i % nshards == k:
+            for rec in judge(c, col):
+                col.fail(rec, c)
+    if k == 0:
+        col.exhaustive_parts.append(f'{n} ordered selects: (one table of an api-type integration | a join over two integrations, four '
+                                    'catalogs) x select-list order x target forms (plain / renamed / computed) x ORDER BY item '
+                                    '(position, column, alias, -column, column + 0, abs(column), alias + 0) on each target x '
+                                    'ASC / DESC x (LIMIT 2 | LIMIT 1 | LIMIT 1 OFFSET 1 | no LIMIT) over two fixed table contents')
     hyp.explore(col, cases(), judge, N[tier], seed, shrink_key=lambda r: (r['kind'], r['site'][:40]))
